@@ -654,16 +654,48 @@ Proof.
     + destruct (admissible (locked s) (cur_count s) (r_count r)); cbn [fst snd]; split; auto.
 Qed.
 
-(* ------------------------------------------------------------------ PriorityLock hand-over: the newcomer window (refutation)
+(* ------------------------------------------------------------------ PriorityLock hand-over: the newcomer window
    LockDB.Lock forces `waited := false` whenever locked = 0 and the request does not carry the wait-when-unlock flag
    (db.go:2163-2176).  Between an UnLock releasing the shard mutex and wakeUpWaitLocks re-taking it, locked = 0 while
-   waiters are still queued (lockManager.waited = true): a newcomer is then admitted whatever its priority. *)
-Lemma priority_newcomer_barges : exists mgr_waited higher_than_waiting,
-  mgr_waited = true /\ higher_than_waiting = false /\
-  newcomer_admitted 0 mgr_waited false (prio_flag_of (prioritylock_timeout 5)) higher_than_waiting prioritylock_count prioritylock_count = true.
-Proof. exists true, false. repeat split. Qed.
+   waiters are still queued (lockManager.waited = true): a newcomer is then admitted whatever its priority.
+   Stated for both values of the regenerated switch (so the statement follows the source if the window is closed). *)
+Theorem priority_newcomer_window :
+  (lock_newcomer_checks_wait_queue = false ->
+     (* refutation of the hand-over clause: waiters queued, key momentarily free, newcomer NOT above the waiting maximum *)
+     newcomer_admitted 0 true false (prio_flag_of (prioritylock_timeout 5)) false true prioritylock_count prioritylock_count = true)
+  /\
+  (lock_newcomer_checks_wait_queue = true ->
+     forall pf cur c, newcomer_admitted 0 true false pf false true cur c = false).
+Proof.
+  unfold newcomer_admitted. split; intros ->; [reflexivity|].
+  intros pf cur c. cbn. rewrite andb_false_r. reflexivity.
+Qed.
 
-(* outside that window (key held) a priority newcomer that is not strictly above the waiting maximum is never admitted *)
-Lemma priority_newcomer_waits_when_held : forall l cur c pf, l <> 0 ->
-  newcomer_admitted l true false pf false cur c = false.
-Proof. intros l cur c pf Hl. unfold newcomer_admitted. destruct (N.eqb_spec l 0); [contradiction|]. rewrite andb_false_r. reflexivity. Qed.
+(* outside that window (key held) a newcomer that is not strictly above the waiting maximum is never admitted *)
+Lemma priority_newcomer_waits_when_held : forall l cur c pf hl, l <> 0 ->
+  newcomer_admitted l true false pf false hl cur c = false.
+Proof.
+  intros l cur c pf hl Hl. unfold newcomer_admitted. destruct (N.eqb_spec l 0); [contradiction|].
+  cbn. rewrite andb_false_r. reflexivity.
+Qed.
+
+(* ------------------------------------------------------------------ Event.Wait of a default-clear event and the wake-up pass
+   A queued Wait is served by wakeUpWaitLocks with doLock only: on a FREE key doLock answers true, so a wake-up pass that is
+   still walking the queue after a Clear hands "success" to a Wait although the event is clear — unless the pass re-checks the
+   wait-when-unlock flag (regenerated switch). *)
+Theorem event_wait_wake_pass : forall t r, event_wait_clearmode_req t r ->
+  (wake_pass_rechecks_wait_when_unlock = false -> wake_grant [] r = true) /\
+  (wake_pass_rechecks_wait_when_unlock = true -> forall s, wake_grant s r = true -> locked s <> 0).
+Proof.
+  intros t r (Hc & He & Hw & Hu). unfold wake_grant. split; intros ->.
+  - reflexivity.
+  - intros s H. rewrite Hw, event_clearmode_wait_sets_flag in H. cbn [andb] in H.
+    destruct (N.eqb_spec (locked s) 0); [cbn in H; discriminate | assumption].
+Qed.
+
+(* default-set events are safe under wake-up passes whatever the switch: Count 0 is only ever served on a free key *)
+Lemma event_wait_setmode_wake : forall t s r, event_wait_setmode_req t r -> wake_grant s r = true -> locked s = 0.
+Proof.
+  intros t s r (Hc & _) H. unfold wake_grant in H. apply andb_true_iff in H. destruct H as [_ H].
+  rewrite Hc in H. change event_setmode_wait_count with 0 in H. rewrite admissible_count0 in H. apply N.eqb_eq; exact H.
+Qed.
